@@ -467,7 +467,7 @@ def replay_schedule(ctx, kinds, n_ops, lines=None):
 
 # ---- data races on state shared by the senders ------------------------------------------------------------------------------------------
 def _repo():
-    return os.path.realpath(os.environ.get("YOWSUP_REPO", "/repo"))
+    return os.path.realpath((os.environ.get("YOWSUP_REPO") or "/repo"))
 
 
 def discover_shared_lines(kinds):
